@@ -427,6 +427,40 @@ func TestWorker(t *testing.T) {
 }
 
 // TestReplay replays a replay file: exit status 0 = no longer fails, 1 = same violation, 2 = trouble.
+// decodeReplay reads a replay file the way a fresh process does (see TestReplayRoundTrip).
+func decodeReplay(b []byte) (*ReplayFile, error) {
+	var rf ReplayFile
+	// numbers are decoded exactly: a document may hold integers beyond 2^53 (C07's extreme numbers), which
+	// a float64 round trip would change
+	dec := json.NewDecoder(bytes.NewReader(b))
+	dec.UseNumber()
+	if err := dec.Decode(&rf); err != nil {
+		return nil, err
+	}
+	if rf.Case != nil {
+		if d, ok := exactNumbers(map[string]any(rf.Case.Doc)).(map[string]any); ok {
+			rf.Case.Doc = d
+		}
+		for i := range rf.Case.Clients {
+			rf.Case.Clients[i].Input = exactNumbers(rf.Case.Clients[i].Input)
+		}
+		if rf.Case.Prov != nil {
+			for i := range rf.Case.Prov.Actions {
+				if m, ok := exactNumbers(rf.Case.Prov.Actions[i].Arg).(map[string]any); ok {
+					rf.Case.Prov.Actions[i].Arg = m
+				}
+			}
+		}
+		if rf.Case.Program != nil {
+			fixProgramNumbers(rf.Case.Program)
+		}
+		if rf.Case.Program2 != nil {
+			fixProgramNumbers(rf.Case.Program2)
+		}
+	}
+	return &rf, nil
+}
+
 // exactNumbers turns the json.Number values of a decoded document into int64 (when integral) or float64.
 func exactNumbers(v any) any {
 	switch x := v.(type) {
@@ -496,33 +530,12 @@ func TestReplay(t *testing.T) {
 		fmt.Printf("HARNESS-ERROR %v\n", err)
 		os.Exit(2)
 	}
-	var rf ReplayFile
-	// numbers are decoded exactly: a document may hold integers beyond 2^53 (C07's extreme numbers), which
-	// a float64 round trip would change
-	dec := json.NewDecoder(bytes.NewReader(b))
-	dec.UseNumber()
-	if err := dec.Decode(&rf); err != nil {
+	rfp, err := decodeReplay(b)
+	if err != nil {
 		fmt.Printf("HARNESS-ERROR %v\n", err)
 		os.Exit(2)
 	}
-	if rf.Case != nil {
-		if d, ok := exactNumbers(map[string]any(rf.Case.Doc)).(map[string]any); ok {
-			rf.Case.Doc = d
-		}
-		for i := range rf.Case.Clients {
-			rf.Case.Clients[i].Input = exactNumbers(rf.Case.Clients[i].Input)
-		}
-		if rf.Case.Prov != nil {
-			for i := range rf.Case.Prov.Actions {
-				if m, ok := exactNumbers(rf.Case.Prov.Actions[i].Arg).(map[string]any); ok {
-					rf.Case.Prov.Actions[i].Arg = m
-				}
-			}
-		}
-		if rf.Case.Program != nil {
-			fixProgramNumbers(rf.Case.Program)
-		}
-	}
+	rf := *rfp
 	def := Props[rf.Property]
 	if def == nil {
 		fmt.Printf("HARNESS-ERROR unknown property %s\n", rf.Property)
